@@ -527,7 +527,15 @@ class Ctx:
     if isc(a):
       if a == 0:
         return (0, 1)
-      raise SXUnsupported('sin/cos of non-zero constant %r' % (a,))
+      # irrational ground values: a circle point pinned to the float64 value within 1e-12 (same argument -> same pair)
+      key = 'const:%r' % (a,)
+      if key not in self.trig:
+        s, c = self.fresh('sinc'), self.fresh('cosc')
+        fs, fc = Fraction(repr(math.sin(float(a)))), Fraction(repr(math.cos(float(a))))
+        eps = Fraction(1, 10**12)
+        self.side += [s * s + c * c == 1, s >= lift(fs - eps), s <= lift(fs + eps), c >= lift(fc - eps), c <= lift(fc + eps)]
+        self.trig[key] = (s, c, lift(a))
+      return self.trig[key][:2]
     av = self._angle_of(a)
     if av is not None and av[0] in self.angle_points:
       sh, ch = self.angle_points[av[0]]
